@@ -165,9 +165,20 @@ def _loading_case(rec, rng, cid, scratch):
               "found %s" % [pathlib.Path(o).name for o in order], case)
     want = [(pathlib.Path(p).name, e) for p in order
             for e in range(layout.get(p, 0))]
-    for name, loader in [("load_group", load_group), ("load_data", load_data)]:
+    seen = set()
+    keep = []
+    for name, loader in [("load_group", load_group), ("load_data", load_data),
+                         ("load_group", load_group)]:
         cb = []
         got = loader(d, callback=cb.append)
+        # (every load hands out objects of its own)
+        again = [(pathlib.Path(i.path).name, i.enum) for i in got
+                 if id(i) in seen]
+        rec.check(not again, "reload/not-fresh",
+                  "%s of a folder loaded before returns the objects of the "
+                  "earlier load: %s" % (name, again[:6]), case)
+        seen |= {id(i) for i in got}
+        keep.append(got)
         rec.event("files / folders loaded")
         rec.evaluated(dg=("folder", name, want, cid))
         have = [(pathlib.Path(i.path).name, i.enum) for i in got]
@@ -308,11 +319,16 @@ def map_case(rec, rng, cid, scratch):
             "layout": pathlib.Path(path).name if recorded else
             {"shape": [nx, ny], "scan_order": [(t[1], t[2]) for t in truth]}}
     cb = []
-    if rng.random() < .5:
+    from nanite import load_group
+    how = int(rng.integers(3))
+    if how == 0:
         qm = QMap(path, callback=cb.append)
         judge_callbacks(rec, cb, case, "qmap")
-    else:
+    elif how == 1:
         qm = QMap(IndentationGroup(path))
+    else:
+        qm = QMap(load_group(path, callback=cb.append))
+        judge_callbacks(rec, cb, case, "load_group")
     nxs, nys = int(qm.shape[0]), int(qm.shape[1])
     if truth is not None:
         # file order = the order in which the base library (afmformats)
@@ -407,6 +423,49 @@ def map_case(rec, rng, cid, scratch):
         rec.check(ok, "map/ground-truth",
                   lambda: "fitted modulus map\n%s\nwritten moduli\n%s"
                   % (m, exp), case)
+    # the file is loaded once more in this process: one NEW object per
+    # recorded curve, nothing fitted or rated on it
+    cb2 = []
+    loader = [lambda: load_group(path, callback=cb2.append),
+              lambda: IndentationGroup(path, callback=cb2.append),
+              lambda: QMap(path, callback=cb2.append).group][
+        how if rng.random() < .6 else int(rng.integers(3))]
+    try:
+        grp2 = loader()
+    except BaseException as e:  # noqa
+        rec.violation("reload/raises/" + type(e).__name__,
+                      "loading the file a second time raised %s"
+                      % str(e)[:80], case)
+        return
+    judge_callbacks(rec, cb2, case, "second load")
+    old_ids = {id(i) for i in curves}
+    rec.event("second loads of a file in the same process")
+    rec.evaluated(dg=("reload", case.get("layout"), how))
+    rec.check(len(grp2) == len(curves) and
+              [i.enum for i in grp2] == [i.enum for i in curves],
+              "reload/other-curves",
+              "second load yields enums %s, first %s"
+              % ([i.enum for i in grp2][:12], [i.enum for i in curves][:12]),
+              case)
+    shared = [i.enum for i in grp2 if id(i) in old_ids]
+    used = [i.enum for i in grp2 if id(i) not in old_ids and (
+        "params_fitted" in i.fit_properties or i._rating is not None or
+        i.preprocessing or "fit" in list(i.columns))]
+    rec.check(not shared and not used, "reload/not-fresh",
+              "second load of the file returns curves of the first load "
+              "(enums %s) / curves that carry fits, ratings or preprocessing "
+              "(enums %s)" % (shared[:8], used[:8]), dict(case, ops=ops[:8]))
+    qm2 = QMap(grp2)
+    for feat in ("fit: Young's modulus", "fit: rating"):
+        with warnings.catch_warnings():
+            warnings.simplefilter("ignore")
+            try:
+                m2 = qm2.get_qmap(feat, qmap_only=True)
+            except BaseException:  # noqa
+                continue
+        rec.check(bool(np.all(np.isnan(m2))), "reload/map-not-empty",
+                  lambda: "map %r of a freshly loaded group (nothing fitted) "
+                  "holds values:\n%s" % (feat, m2), dict(case, ops=ops[:8]))
     rec.sample(dict(case, ops=ops[:8]), limit=1)
 
 
